@@ -9,6 +9,6 @@ INVARIANT TypeOK
 INVARIANT RoundTrip
 INVARIANT RoundTripFind
 INVARIANT FindInvertsCrawl
-INVARIANT OrderIndependence
+INVARIANT OrderIndependenceModuloShadow
 INVARIANT DirVersusFilesModuloShadow
 INVARIANT DirVersusPackageModuloShadow
